@@ -81,8 +81,14 @@ def run_property(pid, tier, repo, replay, evidence_dir, write_evidence, seed, t0
     ctx = Ctx(repo)
     known = load_known(os.path.join(VERIF, "known_findings.json"))
     results = []
+    pending = [rid for rid in spec["rules"] if rid not in RULES]
+    if pending:
+        print(f"note: rules planned for {pid} but not yet implemented: {', '.join(pending)}")
     for rid in spec["rules"]:
-        results.append(ctx.rule_result(rid))
+        if rid in RULES:
+            results.append(ctx.rule_result(rid))
+    if not results:
+        raise AnalysisError(f"no rule of {pid} is implemented")
     extra_notes = []
     if tier == "thorough":
         from sa import thorough
@@ -124,7 +130,7 @@ def run_property(pid, tier, repo, replay, evidence_dir, write_evidence, seed, t0
         write_ev(pid, spec, tier, seed, results, obligations, violations, known_hits, new, wall,
                  evidence_dir, extra_notes, ctx)
     n_ok = sum(1 for o in obligations if o.status != "violation")
-    print(f"{pid} [{tier}] rules={','.join(spec['rules'])} obligations={len(obligations)} "
+    print(f"{pid} [{tier}] rules={','.join(r.rule for r in results)} obligations={len(obligations)} "
           f"discharged={n_ok} known={len(known_hits)} new_violations={len(new)} wall={wall:.2f}s")
     return 1 if new else 0
 
